@@ -514,3 +514,24 @@ impl Server {
         }
     }
 }
+
+#[cfg(mainline_verif)]
+impl Server {
+    /// Verification hook: projection of the stores (most recently used first).
+    pub fn verif_snapshot(&self) -> crate::verif::ServerSnap {
+        crate::verif::ServerSnap {
+            immutable: self
+                .immutable_values
+                .iter()
+                .map(|(k, _)| k.to_string())
+                .collect(),
+            mutable: self
+                .mutable_values
+                .iter()
+                .map(|(k, v)| (k.to_string(), v.seq()))
+                .collect(),
+            peers: self.peers.verif_sizes(),
+            signed_peers: self.signed_peers.verif_sizes(),
+        }
+    }
+}
